@@ -516,6 +516,7 @@ static int driver_main(int argc, char **argv)
 	else
 		printf("%s\n", o.c_str());
 	fflush(stdout);
+	g_crash_path.clear(); // nothing after this point belongs to a case
 	// skip atexit leak checks of a deliberately abandoned failing case
 	if (rc != 0)
 		_exit(rc);
